@@ -526,3 +526,46 @@ def rf89(run):
                       'addresses (laddr, lref with one label) differ by %d bytes: an address computed as base label + stored difference does not '
                       'reach the second label under the interpreter' % (v, esz), line=st['l'])
     return 1
+
+
+# ---------------------------------------------------------------------------------------------
+# RF132: the machine-code address of a function is not its public address
+# ---------------------------------------------------------------------------------------------
+
+RF132_READERS = {
+    'generate_func_code': 'redirects the thunk to the code and returns the thunk',
+    'target_change_to_direct_calls': 'patches call instructions (not address values) to the code',
+    'generate_func_and_redirect_to_func_code': 'lazy handler: returns the address to continue at',
+}
+
+
+def rf132(run):
+    rule = 'RF132'
+    run.rule(rule, 'a function has one public address, the thunk in func_item->addr: `mov p, f`, `ref f` data, imports and exports all '
+                   'yield it, and it does not change when the function is generated.  MIR_func_t.call_addr and .machine_code are read only '
+                   'by the three functions that redirect the thunk or patch call instructions (frozen table); a reader that turns them '
+                   'into an address *value* (reference operands, ref data cells) makes &f depend on whether and when f was generated')
+    n = 0
+    for u in ('mir', 'gen'):
+        tu = run.tu(u)
+        for g in tu.func_list:
+            if not g.file.startswith('/repo') or g.body is None:
+                continue
+            for x in g.walk():
+                if x['k'] == 'MemberExpr' and x['n'] in ('call_addr', 'machine_code') and 'MIR_func' in tu.type(x['c'][0]).s:
+                    par = g.parent_of(x)
+                    if par is not None and par['k'] == 'BinaryOperator' and par['op'] == '=' and F.strip(par['c'][0]) is x:
+                        continue
+                    n += 1
+                    ok = g.name in RF132_READERS
+                    run.functions_analysed.add((u, g.name))
+                    run.ob(rule, (g.name, x['l']), ok, {'site': '%s:%d %s' % (g.relfile(), x['l'], g.name), 'field': x['n'], 'reason': RF132_READERS.get(g.name)})
+                    if not ok:
+                        run.violation(rule, g, 'code address used as a value', '%s reads `%s` (line %d): outside the thunk redirection and the '
+                                      'patching of call instructions the code address must not stand for the function — an address taken after '
+                                      'the function was generated differs from one taken before (and from the value of `ref f` data, imports, the '
+                                      'interpreter), so comparisons and look-ups by function address depend on the interface and the order of calls' %
+                                      (g.name, F.src(x)[:50], x['l']), line=x['l'])
+    if n < 5:
+        raise F.AnalysisBroken('RF132: only %d reads of call_addr / machine_code found' % n)
+    return n
